@@ -873,8 +873,13 @@ func (h *hist) stepMineMixed() bool {
 	chosen := map[*pent]bool{}
 	var list []*pent
 	p := 20 + h.r.Intn(75)
+	wsum := 0
 	for _, e := range v.topo() {
 		if excluded[e] || !e.inOK || h.r.Intn(100) >= p {
+			continue
+		}
+		// what blockFrom would leave out must not be chosen (something else may build on it)
+		if wsum+e.weight > 3500000 || !refchain.IsFinal(toRef(e.rt), h.ref.Tip.Height+1, h.ref.Tip.MTP()) {
 			continue
 		}
 		ok := true
@@ -884,6 +889,7 @@ func (h *hist) stepMineMixed() bool {
 		if ok {
 			chosen[e] = true
 			list = append(list, e)
+			wsum += e.weight
 		}
 	}
 	// unknown txs, sometimes with an in-block child; sometimes a withheld parent of an orphan
@@ -994,6 +1000,9 @@ func (h *hist) reorgBlockWithUndone(parent *refchain.Node, undone []*refchain.Tx
 	var txs []*refchain.Tx
 	var fees uint64
 	include := func(t *refchain.Tx) bool {
+		if !refchain.IsFinal(t, parent.Height+1, parent.MTP()) {
+			return false
+		}
 		var in, out uint64
 		seen := map[OP]bool{}
 		for _, i := range t.In {
